@@ -23,7 +23,8 @@ PROPS = {
                 "leaves once all pieces are stored, in 1/3 everybody stays; one run in six is a crowd of 2..15 leechers (every piece at exactly one of "
                 "them, all interested in us, all staying: more listed peers than the client connects to at once), one in seven a slow seeder with late, fast twins (the seeder has everything and answers slowly, every other peer has exactly one piece, is slow to accept the connection and then answers at once; the last piece is at the seeder only: the seeder loses the race for the piece it was asked first, is cancelled and must go on with another), one in eight a torrent of 8 or 16 pieces (a bitfield without spare bits); observed: SHA-1 of every output file (compared with the model's "
                 "extractSpec of the content), panics of any task (panic hook), the session still running; distinct = distinct argument lines"
-                + " Twenty-four runs per quick check over eight families.",
+                + " Twenty-four runs per quick check over eight families."
+                + " Plus three `lag` runs: the real Session and two real connection tasks over in-memory streams, the only holder of the last piece ready only after 33-35 of 36-65 pieces are stored (more announcements than the broadcast channel retains) or early (control).",
         "assumptions": STD_ASSUME_PURE + ["liveness on the real runtime is observed, not proved: tokio scheduling, TCP, reqwest, timers and the OS are outside the model",
                                            "SHA-1 collision freedom on the torrent's pieces is an explicit hypothesis of T1",
                                            "peers that stay connected without serving what they were asked for are outside the property's hypothesis (honest or disconnecting)",
@@ -112,7 +113,8 @@ PROPS = {
                 "pieces around END_GAME_LIMIT), 1..6 peers with random advertised sets of density 10..95%, a target peer; the real "
                 "Session::choose_piece_index is called 8 times per state (different shuffles); every answer must lie in the admissible set of the "
                 "theorem (eligible and of minimal availability; none iff nothing eligible); distinct = distinct argument lines"
-                + " Oracle (v) on the manager histories: a reply that reveals that the chooser answered nothing (after Unchoke, Have from a peer we are not interested in, Bitfield, piece stored/cancelled, NotInterested) is a violation when an eligible piece exists.",
+                + " Oracle (v) on the manager histories: a reply that reveals that the chooser answered nothing (after Unchoke, Have from a peer we are not interested in, Bitfield, piece stored/cancelled, NotInterested) is a violation when an eligible piece exists."
+                + " Half of the chooser cases (`chb`) deliver the advertised sets as Bitfield messages of the connections; piece counts that are multiples of eight.",
         "assumptions": STD_ASSUME_PURE + ["rand's shuffle returns a permutation (any permutation is covered by the theorem)",
                                            "'being fetched from another peer' is read as the manager's own Reserved bookkeeping (its truthfulness is C12)"],
     },
@@ -128,7 +130,8 @@ PROPS = {
                 "op the full snapshot (am_choked, interested, optimistic per peer), for rotations also the sorted order and the broadcast "
                 "am_choked_map, are compared with the model; oracle T1 (slot bounds) on every snapshot, T2/T3 on every rotation; "
                 "distinct = distinct histories"
-                + " Rotation ticks run with all-owned, nothing-owned, end-game (nothing Missing, something Reserved) and mixed statuses; view oracle: outside a rotation the choke flag on record changes only together with the Unchoke that answers this peer's bitfield.",
+                + " Rotation ticks run with all-owned, nothing-owned, end-game (nothing Missing, something Reserved) and mixed statuses; view oracle: outside a rotation the choke flag on record changes only together with the Unchoke that answers this peer's bitfield."
+                + " Every third address of a history is a seeder (complete bitfield), every third offers nothing.",
         "assumptions": STD_ASSUME_PURE + ["broadcast channel never overflows (each connection task sees every SendOwnState), see DESIGN.md C11/C14",
                                            "new_optimistic_peers returns at most MAX_OPTIMISTIC peers, each currently choked and interested (read off the code: choose() of that filtered list)"],
     },
@@ -147,7 +150,8 @@ PROPS = {
                 "connection, cancellation by broadcast, disconnect at any point; observed: every *.piece file written (name, SHA-1 recomputed by the "
                 "harness, length), PieceDone commands, termination; monitor P01 on the implementation's and the model's trace; manager side by the "
                 "C12 histories; distinct = distinct scripts"
-                + " Added in rounds 6/7 of the seeded evaluation: a third of the task scripts run in a download directory that already holds a stale, partial file under the name of every piece being fetched; now and then a piece of more than 2 MiB is served in order (the stored length and hash are observed from the file); blocks of another piece at exactly the offset and length of an outstanding request.",
+                + " Added in rounds 6/7 of the seeded evaluation: a third of the task scripts run in a download directory that already holds a stale, partial file under the name of every piece being fetched; now and then a piece of more than 2 MiB is served in order (the stored length and hash are observed from the file); blocks of another piece at exactly the offset and length of an outstanding request."
+                + " Round 8: every fourth of those scripts has a *directory* in the way instead (the store fails: the task must end without reporting the piece); in the closed-loop runs every bitfield a task writes is judged like a Have (a set bit needs a verified piece file).",
         "assumptions": STD_ASSUME_PURE + ["external modification of *.piece files and SHA-1 collisions are outside; sha1 is a parameter of every theorem"],
     },
     "C11": {
@@ -166,7 +170,8 @@ PROPS = {
                 "of length {1,100,B-1,B,B+1,20000,2B,2B+1,40000,3B,5B+7}, blocks answered in random order, duplicated, withheld, foreign index or "
                 "offset, corrupt payload, cancellation by a broadcast Have, chokes; Request frames observed on the in-memory stream; the monitor P10 "
                 "evaluated on the implementation's trace and on the model's trace; distinct = distinct lines"
-                + " Added in rounds 6/7: stale piece files in the download directory, a piece of more than 2 MiB now and then, blocks of another piece at exactly the offset and length of an outstanding request.",
+                + " Added in rounds 6/7: stale piece files in the download directory, a piece of more than 2 MiB now and then, blocks of another piece at exactly the offset and length of an outstanding request."
+                + " Round 8: where every block of the script's piece was the real one and the implementation ends the connection instead of storing it, that is a violation of its own (piece not completed at its last outstanding block).",
         "assumptions": STD_ASSUME_PURE + ["piece length handed to the task is Metainfo::piece_length(i) (C03)"],
     },
     "C09": {
@@ -178,7 +183,8 @@ PROPS = {
                 "switches to another piece; per event outputs compared with the model; a quarter of the cases are mreq = the real manager's answer to "
                 "RecvRequest (Peer::handle_request) for random statuses, all 16 combinations of the four choke/interest flags and indices in and out "
                 "of range, compared with managerAnswersLoad; the monitor P09 of the theorem evaluated on the "
-                "implementation's trace; a panic of the task is a violation; distinct = distinct scripts",
+                "implementation's trace; a panic of the task is a violation; distinct = distinct scripts"
+                + " Plus choking-policy histories on the real Session (those of C14, incl. repeated bitfields and block requests), read with C14's model and view oracle: the choke state on record is the one the peer was told.",
         "assumptions": STD_ASSUME_PURE + ["the manager answers LoadAndSendPiece only for owned pieces of an unchoked peer (Peer::handle_request, modelled in the manager model)",
                                            "the piece file holds the verified bytes (C01)"],
     },
@@ -189,7 +195,8 @@ PROPS = {
                 "handshake (bitfield, interested, request, unchoke, keep-alive, broadcast have); handshakes that are valid, carry another "
                 "info-hash, another peer id, are repeated or absent; then ordinary traffic incl. requests for stored pieces; per event outputs "
                 "compared with the model; the predicate P08 of the theorem evaluated on the implementation's own trace; distinct = distinct scripts"
-                + " Added: `reconn` (the real run_incoming over loopback TCP: valid session, disconnect, no piece data without a handshake on any later connection) and `accept` (the real Session::run with its listener: eleven interesting listed peers fill the slots, the first listed stays queued; connections made to the client from the queued candidate's own address and from an unrelated one: bytes before the peer's handshake, answer to a foreign and to a valid handshake).",
+                + " Added: `reconn` (the real run_incoming over loopback TCP: valid session, disconnect, no piece data without a handshake on any later connection) and `accept` (the real Session::run with its listener: eleven interesting listed peers fill the slots, the first listed stays queued; connections made to the client from the queued candidate's own address and from an unrelated one: bytes before the peer's handshake, answer to a foreign and to a valid handshake)."
+                + " `accept u`: the variant in which the client already has its fill of connections it has no interest in.",
         "assumptions": STD_ASSUME_PURE + ["a wrong protocol string is a decode error (C06); the manager forgets the peer on KillReq (kill step, C12)"],
     },
     "C15": {
@@ -244,7 +251,8 @@ PROPS = {
                 "reason, non-UTF-8 reason, connection closed) before a good reply; observed: number of announces, whether a new connection to the "
                 "listening port gets its handshake answered while announces fail, and handshakes arriving at the listed fake peers; compared with "
                 "the retry model's prediction (manager free in every state, run ends contacted); distinct = distinct argument lines"
-                + " Reply bodies with length prefixes that cannot be backed by data nor allocated; `cand` histories include a crowd family (12-14 interesting peers before a reply).",
+                + " Reply bodies with length prefixes that cannot be backed by data nor allocated; `cand` histories include a crowd family (12-14 interesting peers before a reply)."
+                + " Long failure reasons of multi-byte characters and of bytes that are not UTF-8.",
         "assumptions": STD_ASSUME_PURE + ["part 2 (retry protocol) is a hand-abstracted model of tokio::spawn / mpsc / JoinHandle semantics; its only tie to "
                                            "the runtime is the e2e run (real time, 1 s per failed announce), so T4 is partial with respect to the real scheduler",
                                            "port 6881 is free on the machine (runs are serialised by a lock file)"],
@@ -258,7 +266,8 @@ PROPS = {
                 "at the end; incoming and outgoing connections; per event the frames written, commands sent and the termination are compared "
                 "with the model, and the keep-alive predicate P20 (the one the theorem is about) is evaluated on the implementation's own trace; "
                 "distinct = distinct scripts"
-                + " Added: pieces assigned to connections that then fall silent, cancel-and-reassign between ticks, and `fullq`: silent connections whose closing tick falls into a moment when the manager's command channel is full (it must still be told).",
+                + " Added: pieces assigned to connections that then fall silent, cancel-and-reassign between ticks, and `fullq`: silent connections whose closing tick falls into a moment when the manager's command channel is full (it must still be told)."
+                + " Keep-alives that trickle in byte by byte across the ticks (`p:` events).",
         "assumptions": STD_ASSUME_PURE + ["tokio timers fire in order under the paused clock; a task blocked in a socket write does not poll its timer (outside the model)",
                                            "messages with unknown ids are dropped below the task and do not count as activity"],
     },
